@@ -5,6 +5,13 @@
   (or (= op TokenAnd) (= op TokenOr) (= op TokenPlus) (= op TokenMinus) (= op TokenStar) (= op TokenSlash)
       (= op TokenMod) (= op TokenLT) (= op TokenLE) (= op TokenGT) (= op TokenGE)))
 
+; a plain (unquoted) identifier spelling [A-Za-z_$][A-Za-z0-9_]*: the only text the compiler ever emits verbatim
+; (function names of calls it does not rewrite), C04/C05
+(define-fun plainStartC ((c Int)) Bool (or (and (<= 97 c) (<= c 122)) (and (<= 65 c) (<= c 90)) (= c 95) (= c 36)))
+(define-fun plainContC ((c Int)) Bool (or (and (<= 97 c) (<= c 122)) (and (<= 65 c) (<= c 90)) (and (<= 48 c) (<= c 57)) (= c 95)))
+(define-fun-rec plainName ((v Str)) Bool
+  (and (> (Str.len v) 0) (plainStartC (Str.nth v 0))
+       (forall ((i Int)) (! (=> (and (< 0 i) (< i (Str.len v))) (plainContC (Str.nth v i))) :pattern ((Str.nth v i))))))
 ; ---- well-formedness of expression trees the parser owes the compiler (Appendix D)
 (declare-fun exprWF (Node) Bool)
 (declare-fun exprWFL (Seq_Node Int) Bool)
@@ -20,7 +27,7 @@
    (and (exprWF x) (exprWF y) (or (binopKnown op) (= op TokenEq) (= op TokenNE) (= op TokenCaseInsensitiveEq) (= op TokenCaseInsensitiveNE)))) :pattern ((exprWF (mk_BinaryExpr x os op y))))))
 (assert (forall ((x Node) (in Span) (lp Span) (vals Seq_Node) (rp Span)) (! (= (exprWF (mk_InExpr x in lp vals rp)) (and (exprWF x) (exprWFL vals (Seq_Node.len vals)))) :pattern ((exprWF (mk_InExpr x in lp vals rp))))))
 (assert (forall ((lp Span) (x Node) (rp Span)) (! (= (exprWF (mk_ParenExpr lp x rp)) (exprWF x)) :pattern ((exprWF (mk_ParenExpr lp x rp))))))
-(assert (forall ((fn Node) (lp Span) (args Seq_Node) (rp Span)) (! (= (exprWF (mk_CallExpr fn lp args rp)) (and ((_ is mk_Ident) fn) (exprWFL args (Seq_Node.len args)))) :pattern ((exprWF (mk_CallExpr fn lp args rp))))))
+(assert (forall ((fn Node) (lp Span) (args Seq_Node) (rp Span)) (! (= (exprWF (mk_CallExpr fn lp args rp)) (and ((_ is mk_Ident) fn) (not (Ident.Quoted fn)) (plainName (Ident.Name fn)) (exprWFL args (Seq_Node.len args)))) :pattern ((exprWF (mk_CallExpr fn lp args rp))))))
 (assert (forall ((x Node) (lb Span) (idx Node) (rb Span)) (! (= (exprWF (mk_IndexExpr x lb idx rb)) (and (exprWF x) (exprWF idx))) :pattern ((exprWF (mk_IndexExpr x lb idx rb))))))
 ; only the eight expression node types are expressions
 (assert (forall ((n Node)) (! (=> (exprWF n) (or ((_ is mk_QualifiedIdent) n) ((_ is mk_BasicLit) n) ((_ is mk_UnaryExpr) n) ((_ is mk_BinaryExpr) n) ((_ is mk_InExpr) n) ((_ is mk_ParenExpr) n) ((_ is mk_CallExpr) n) ((_ is mk_IndexExpr) n))) :pattern ((exprWF n)))))
